@@ -112,7 +112,9 @@ func genP05(g *Gen, p *Program) {
 			nt := g.R.Range(1, 8)
 			for i := 0; i < nt; i++ {
 				var tk string
-				if g.R.P(1, 6) {
+				if g.R.P(1, 12) {
+					tk = g.ScanNearMiss()
+				} else if g.R.P(1, 6) {
 					tk = g.InvalidLiteral(true)
 				} else {
 					tk = g.ValidLiteral(true, true)
